@@ -9,7 +9,8 @@
      * fewer pending, Fin                        -> the pending bytes (possibly none); later reads: EOF
      * fewer pending, Rst, some bytes pending    -> the pending bytes; the reset is reported by the next recv
      * fewer pending, Rst, nothing pending       -> ConnectionResetError, once; later reads: EOF
-   Guards and drain lengths come from Gen/ReadGuards.v (regenerated from /repo on every run). *)
+   Guards, drain lengths and the "does this path clear _connected" flags come from Gen/ReadGuards.v
+   (regenerated from /repo on every run). *)
 From Coq Require Import ZArith List Bool.
 From Cli Require Import Model.SubBase Gen.ReadGuards.
 Import ListNotations.
@@ -55,7 +56,6 @@ Inductive exc :=
 | EBadSize          (* InvalidMessageDefinition: payload size differs from the local definition *)
 | EBadVersion       (* InvalidMessageDefinition: version hash differs (sync_check) *)
 | EConnLost         (* ConnectionLost *)
-| EConnReset        (* a raw ConnectionResetError escaping read_message *)
 | EValue            (* ValueError: negative buffersize in recv *)
 | ENotConnected.    (* NotConnectedError *)
 
@@ -71,6 +71,8 @@ Inductive tmo := TNone | TBlock | TZero | TPos.   (* timeout=None | -1 (default)
 Record rcfg := mkCfg { timeout : tmo; ack : bool; sync_check : bool }.
 Record rstate := mkR { connected : bool; r_sub_all : bool; r_subscribed : list Z }.
 Definition disconnected (st : rstate) := mkR false (r_sub_all st) (r_subscribed st).
+(* raise ConnectionLost, after `self._connected = False` if the code path has that statement *)
+Definition lost (clears : bool) (st : rstate) : rstate := if clears then disconnected st else st.
 
 (* local message definitions: type id -> (type_size, type_hash); the v1 fallback
    `if type_size == -1: type_size = data.size` is folded into the table by the harness *)
@@ -80,14 +82,19 @@ Fixpoint lookup (t : Z) (tbl : deftable) : option (Z * Z) :=
 
 Definition result := (outcome * rstate * stream)%type.
 
-(* `raw = self._sock.recv(<len>, socket.MSG_WAITALL)` followed by `raise <decode error>`;
-   the recv is not inside a try block *)
+(* `raw = self._drain(<len>)` followed by `raise <decode error>`.  Client._drain:
+       try: raw = self._sock.recv(nbytes, socket.MSG_WAITALL)
+       except ConnectionError: self._connected = False; raise ConnectionLost
+       if len(raw) != nbytes: self._connected = False; raise ConnectionLost
+       return raw
+   (a negative length makes recv raise ValueError, which is not a ConnectionError) *)
 Definition drain (len : Z) (st : rstate) (s : stream) (k : list Z -> outcome) : result :=
   if len <? 0 then (ORaise EValue, st, s)
   else match recv_waitall (Z.to_nat len) s with
        | RData raw s' => (k raw, st, s')
-       | RShort raw s' => (k raw, st, s')
-       | RReset s' => (ORaise EConnReset, st, s')
+       | RShort raw s' => if drain_short_checked then (ORaise EConnLost, lost drain_short_disconnects st, s')
+                          else (k raw, st, s')
+       | RReset s' => (ORaise EConnLost, lost drain_reset_disconnects st, s')
        | RBlock => (OBlocked, st, s)
        end.
 
@@ -107,8 +114,8 @@ Definition read_raw (tbl : deftable) (cfg : rcfg) (st : rstate) (s : stream) : r
   | None =>
     match recv_waitall (Z.to_nat HEADER_SIZE) s with
     | RBlock => (OBlocked, st, s)
-    | RShort _ s' => (ORaise EConnLost, disconnected st, s')      (* nbytes != header.size *)
-    | RReset s' => (ORaise EConnLost, st, s')                     (* except ConnectionError: raise ConnectionLost *)
+    | RShort _ s' => (ORaise EConnLost, lost hdr_short_disconnects st, s')   (* nbytes != header.size *)
+    | RReset s' => (ORaise EConnLost, lost hdr_reset_disconnects st, s')     (* except ConnectionError *)
     | RData h s1 =>
       let n := hdr_nbytes h in
       match lookup (hdr_type h) tbl with
@@ -120,8 +127,8 @@ Definition read_raw (tbl : deftable) (cfg : rcfg) (st : rstate) (s : stream) : r
         else if n =? 0 then (OMsg h (repeat 0 (Z.to_nat type_size)), st, s1)
         else match recv_waitall (Z.to_nat type_size) s1 with
              | RData p s2 => (OMsg h p, st, s2)
-             | RShort _ s2 => (ORaise EConnLost, disconnected st, s2)
-             | RReset s2 => (ORaise EConnLost, st, s2)
+             | RShort _ s2 => (ORaise EConnLost, lost data_short_disconnects st, s2)
+             | RReset s2 => (ORaise EConnLost, lost data_reset_disconnects st, s2)
              | RBlock => (OBlocked, st, s1)
              end
       end
@@ -214,10 +221,6 @@ Fixpoint spec_many (tbl : deftable) (calls : list call) (fs : list frame)
       end
     end
   end.
-
-(* header bytes -> can the frame be decoded under the local definitions? *)
-Definition decodable (tbl : deftable) (sync : bool) (h : list Z) : bool :=
-  match classify tbl sync (mkFrame h []) with OMsg _ _ => true | _ => false end.
 
 (* building concrete headers (examples, witnesses) *)
 Definition le_bytes (v : Z) : list Z :=
